@@ -29,3 +29,52 @@ Theorem C18_shape :
     ti_kind (upcast_composite s c) = KStruct c /\ ti_codec (upcast_composite s c) = s_codec s.
 Proof. exact upcast_shape. Qed.
 Print Assumptions C18_shape.
+
+(** ** wire fidelity of standalone structs (definitions: Model/Shape.v) *)
+From V Require Import Model.Shape Proofs.FidelityBase Proofs.Fidelity Proofs.FidelityGen.
+
+(** the analogue of [C18_same_fields] for enums: every variant body of the item of a
+    parameter-free enum is literally what the public API builds from the variant's field
+    list with empty type parameters (names and indices as recorded) *)
+Theorem C18_variant_fields :
+  forall r s t flat ir vs,
+    params_from_scale_info (t_params t) = [] -> t_def t = TDVariant vs ->
+    create_type_ir r s t flat = Ok (Some ir) ->
+    exists name docs l,
+      ti_kind ir = KEnum name docs l /\ ti_params ir = [] /\
+      Forall2 (fun v x => fst x = v_index v /\ ci_name (snd x) = v_name v /\
+                          create_composite_ir_kind r s (v_fields v) [] [] = Ok (ci_kind (snd x), []))
+              vs l.
+Proof. exact enum_item_variants_standalone. Qed.
+Print Assumptions C18_variant_fields.
+
+(** the standalone struct built from ANY field list with empty type parameters, read against
+    the generated items, is the [SStruct] of the registry field list: same names, order,
+    boxed flags, and field types of the registry shape at every depth *)
+Theorem C18_faithful :
+  forall r s teq m,
+    skeleton_consistent r s -> root_fresh s -> generate r s teq = Ok m ->
+    forall fs k u name docs n,
+      create_composite_ir_kind r s fs [] [] = Ok (k, u) ->
+      item_shape m s n (upcast_composite s (mk_ci name k docs)) [] =
+      SStruct (map (field_shape_reg r s n) fs).
+Proof. exact standalone_faithful. Qed.
+Print Assumptions C18_faithful.
+
+(** ... which is the body the item of a parameter-free entry has: its struct body, resp. each of
+    its variant bodies (with the recorded name and index), is the same [SStruct] field list *)
+Theorem C18_item_body :
+  forall r s teq m,
+    skeleton_consistent r s -> root_fresh s -> generate r s teq = Ok m ->
+    forall t flat ir n,
+      params_from_scale_info (t_params t) = [] ->
+      create_type_ir r s t flat = Ok (Some ir) ->
+      match t_def t with
+      | TDComposite fs => item_shape m s n ir [] = SStruct (map (field_shape_reg r s n) fs)
+      | TDVariant vs =>
+          item_shape m s n ir [] =
+          SEnum (map (fun v => (v_name v, v_index v, map (field_shape_reg r s n) (v_fields v))) vs)
+      | _ => True
+      end.
+Proof. exact param_free_item_body. Qed.
+Print Assumptions C18_item_body.
